@@ -50,6 +50,10 @@ CLAIMS = {
    text="Theorems on the loader model: whatever an import attempt does - succeed, fail with any error at any depth of the import graph - afterwards the set of libraries being imported is exactly what it was before, and root frame, program directory and import phase are untouched (mutual induction over eval_import_set / get_library / eval_import / eval_library_definition); a cyclic import is reported exactly when the library is reached while it is being imported, otherwise the outcome is the outcome of loading it; a failed load is not cached; library files are looked up relative to the program's directory. Together: the outcome of an import does not depend on earlier attempts. Tied to the code by every digraph on 1 and 2 libraries (3 sampled in thorough) x every node kind (healthy, missing, faulting body, wrong name, syntactically broken, not UTF-8) x files and registered sources x histories of up to 3 attempts; outcomes compared model vs implementation and each attempt against the same import on a fresh interpreter.",
    note=COMMON_NOTE + "; termination is by fuel in the model: the bound 'number of libraries + 1 suffices' is not proved (every generated graph terminates on both sides); the file system is an oracle",
    technique="Coq proof (invariant by mutual fuel induction over the loader) + exhaustive small-graph differential correspondence with history-independence oracle"),
+ "C17": dict(
+   text="Theorems on the model of `ruschm FILE`: running a file is evaluating its text (as io.rs hands it to the lexer) with the program's directory set; an LF file reads as itself, the same file with CR LF line ends reads as the LF file, a missing final newline is supplied (so line-end convention and final newline cannot change the outcome); the forms are evaluated in order and the run stops at the first failing form, every form before it having succeeded; exit status 0 exactly when every form succeeded (then no diagnostic), otherwise one diagnostic carrying the failing form's error and status 255; a missing / non-UTF-8 / directory path is a diagnostic with non-zero status. main.rs is short, so the weight is in the tie: random displaying programs with an optional run-time or syntax fault at a random position, comments/blank lines, LF or CR LF, with/without final newline, run through the BUILT BINARY from another working directory: stdout bytes, exit status and the diagnostic's location vs the model, stdout vs in-process evaluation of the same text, and invariance under the other line-end / final-newline choice.",
+   note=COMMON_NOTE + "; process exit status, stdio flushing and termcolor output are runtime facts observed on the binary; the diagnostic's message text is not compared",
+   technique="Coq proof (line-end normalisation by induction on lines, structure of the evaluation loop) + differential correspondence with the built binary"),
  "C18": dict(
    text="Theorems on the REPL model: the bracket test is a left fold, so it does not depend on how the text was cut into lines; parentheses inside string literals (with escapes), character literals, |quoted identifiers| and comments do not count; while a list is open a line is only appended (nothing is evaluated) and as soon as every list is closed exactly the accumulated text is evaluated and the buffer cleared; a submission spread over several lines is evaluated once as the lines joined by newlines; a session is the sequence of its submissions evaluated one after another on one interpreter (definitions persist). Tied to repl.rs by (a) check_bracket_closed through a cfg-guarded wrapper vs the model on EVERY string up to length 5 (quick) / 7 (thorough) over ( ) \" ; \\ # a newline | plus longer samples, (b) random texts through bracket test and reader (complete forms must be submitted), (c) random sessions fed to the built binary over a pipe under three line splittings: stdout bytes and number of error lines vs the model, and equality across splittings.",
    note=COMMON_NOTE + "; rustyline over a pipe (observed: each line is delivered with its newline, so a string literal that spans lines gets a doubled newline in pipe mode - outside the claim, line breaks are only between tokens); the agreement of the bracket count with the reader's nesting depth is validated exhaustively on short strings, not proved; error messages are counted, not compared",
